@@ -260,7 +260,7 @@ func runC19(R *vlib.Out) {
 	}
 	maxA, maxT := 2, 2
 	if *vlib.Tier == "thorough" {
-		maxA, maxT = 3, 3
+		maxA, maxT = 4, 4
 	}
 	R.Bounds["max_all_types_handlers"] = maxA
 	R.Bounds["max_type_specific_handlers"] = maxT
